@@ -32,8 +32,9 @@ P = "C04"
 def _gen_model(ctx, dim):
     U = gc.generic_model_class(ctx)
     v, l, s = ctx.real("var", pos=True), ctx.real("len", pos=True), ctx.real("resc", pos=True)
-    ctx.require(ctx.And(ctx.gt(v, 0), ctx.gt(l, 0), ctx.gt(s, 0)))
-    return _q(U, dim=dim, var=v, len_scale=l, rescale=s), v
+    n = ctx.real("nug", nonneg=True)
+    ctx.require(ctx.And(ctx.gt(v, 0), ctx.gt(l, 0), ctx.gt(s, 0), ctx.ge(n, 0)))
+    return _q(U, dim=dim, var=v, len_scale=l, rescale=s, nugget=n), v
 
 
 @contract(P, "CovModel.spectrum/var-times-density", params={"dim": [1, 2, 3]},
